@@ -480,8 +480,6 @@ def run_c19(prop, tier):
                     key = tuple(sorted([s1 or "(harness)", s2 or "(harness)"]))
                     reports.setdefault(key, dict(n=0, example=st, log=logp))
                     reports[key]["n"] += 1
-        if harness_only:
-            raise vp.Fatal("race reports inside the harness itself (fix the harness): %s" % json.dumps(harness_only[0])[:1500])
         ran = 0
         trace = os.path.join(sd, "all.ndjson")
         n, k, samples, meta = merge_traces(res, trace)
@@ -508,7 +506,9 @@ def run_c19(prop, tier):
             monitor="Go race detector (go build -race -tags verif) on the real code; the specification supplies the schedule space and the predicted pairs",
             model_result_reused_from_same_spec_text=bool(model.get("from_cache")), predicted_race_pairs=len(predicted), predicted=sorted("%s | %s | %s" % (a, b, ",".join(sorted(vs))) for (a, b), vs in predicted.items()),
             stress_cases_generated=len(cases), stress_cases_run=k, race_reports=nrep, distinct_detected_pairs=len(reports),
-            detected_not_predicted=unpred, predicted_not_detected=sorted("%s | %s" % kk for kk in predicted if kk not in reports),
+            detected_not_predicted=unpred, model_drift=bool(unpred), harness_only_reports=len(harness_only),   # a detected race is a VIOLATION whether or not Locks.tla predicts it
+            chain_server_latency="stress: every answer of the simulated bitcoind / elementsd / Electrum is delayed (per case: up to 0.5-4 ms, "
+                                 "in 0-25 % of the calls 10-40 ms), so that a lock released around an RPC exposes its window", predicted_not_detected=sorted("%s | %s" % kk for kk in predicted if kk not in reports),
             note="absence of a report is evidence only for the schedules that were run; the detector only sees races whose both accesses "
                  "execute without an intervening happens-before edge in a run",
             known_findings=sorted(ver.known), new_violations=sorted(ver.new),
@@ -516,6 +516,9 @@ def run_c19(prop, tier):
             "entry points are stressed pairwise (plus occasional third) on one prepared swap per case; seeds vary the pair order, variants and start delays",
             "simulated services use read-write locks for their own state, which adds happens-before edges the real node does not have",
             "peersync poller, LND/CLN client adapters and the gRPC layer are outside this harness"])
+        # a report whose both sides are harness code is a harness bug (exit 2), but never hides a violation on the real code
+        if rc == 0 and harness_only:
+            raise vp.Fatal("race reports inside the harness itself (fix the harness): %s" % json.dumps(harness_only[0])[:1500])
         if rc == 0 and v["unsettled"]:
             raise vp.Fatal("stress runs did not settle: %s" % v["unsettled"][:3])
         return rc
